@@ -29,6 +29,9 @@ func init() {
 
 // sizeAlphabet draws a boundary-valued request size relative to the current situation.
 func pickSize(st *sim.Stream, remaining int, bufHint int) int {
+	if bigValuesProfile && st.Chance(1, 3) {
+		return 33000 + st.Choose(30000) // lands in the 64 KiB buffer class
+	}
 	switch st.Pick(6, 4, 4, 3, 3, 3, 2, 2, 1) {
 	case 0:
 		return []int{1, 0, 2, 3, 4, 8, 14, 16}[st.Choose(8)]
